@@ -335,8 +335,11 @@ class DSDLDefinition(ReadableDSDLFile):
         if self._text is None:
             if _verif_trace.ENABLED:
                 _verif_trace.emit("text_load", file=str(self._file_path))
-            with open(self._file_path) as f:
-                self._text = str(f.read())
+            try:
+                with open(self._file_path) as f:
+                    self._text = str(f.read())
+            except (OSError, UnicodeError) as ex:  # E.g., a directory named like a definition; text that is not UTF-8.
+                raise InvalidDefinitionError("Cannot read the definition text: %s" % ex, path=self._file_path) from ex
         return self._text
 
     @property
